@@ -24,12 +24,12 @@ example : Aead.Laws toy := toyLaws
 theorem forward_delivers (L : A.Laws) (o : Node A) (ce : CircuitE A) (cid first xa xc : Nat) (re0 : Bool)
     (nodes : List (Node A)) (m : Bytes) (b : UInt8)
     (hc : List.lookup cid o.circuits = some ce) (hs : ce.hs = none)
-    (hm : m.head? = some b) (hb : ((m.head? == some 4) || decide (ce.early < o.maxEarly)) = true ∨ b ≠ 4)
-    (hpath : FwdChain ((m.head? == some 4) || decide (ce.early < o.maxEarly)) cid nodes ce.hops xa xc) :
+    (hm : m.head? = some b) (hb : (sendEarly m ce.early o.maxEarly) = true ∨ b ≠ 4)
+    (hpath : FwdChain (sendEarly m ce.early o.maxEarly) cid nodes ce.hops xa xc) :
     ∃ c0 : Cell,
       (sendCell o first ⟨cid, false, re0, m⟩).2 = some (first, c0) ∧
       c0.plaintext = false ∧
-      (walk nodes c0).2 = .delivered xa ⟨xc, false, (m.head? == some 4) || decide (ce.early < o.maxEarly), m⟩ ∧
+      (walk nodes c0).2 = .delivered xa ⟨xc, false, sendEarly m ce.early o.maxEarly, m⟩ ∧
       c0.msg :: (walk nodes c0).1.map (fun e => e.cell.msg) = sufBodies A .fwd (withNonces A o.ctr ce.hops) m ∧
       ∀ e ∈ (walk nodes c0).1, e.cell.plaintext = false := by
   have hne : ce.hops ≠ [] := by
@@ -286,7 +286,7 @@ example : (processCell (A := toy)
     looking, empty, …), on the downloader's and on the seeder's circuit alike: the circuit *type* decides. -/
 theorem e2e_data_reaches_raw (ct : CType) (h : isE2EType ct = true) (pfx data : Bytes) (tunnelEp destZero : Bool)
     (exitIds : List UInt8) :
-    onDataSink (some ct) true true pfx tunnelEp destZero data exitIds = .raw := by
+    onDataSink (some ct) true true true pfx tunnelEp destZero data exitIds = .raw := by
   simp [onDataSink, h]
 
 /-- on every other own circuit exactly the IPv8-looking payloads are diverted: a packet with the tunnel community's own
@@ -295,7 +295,7 @@ theorem e2e_data_reaches_raw (ct : CType) (h : isE2EType ct = true) (pfx data : 
     is not IPv8-looking reaches `on_raw_data` -/
 theorem plain_data_sink (ct : CType) (h : isE2EType ct = false) (pfx data : Bytes) (tunnelEp destZero : Bool)
     (exitIds : List UInt8) :
-    onDataSink (some ct) true true pfx tunnelEp destZero data exitIds =
+    onDataSink (some ct) true true true pfx tunnelEp destZero data exitIds =
       (if couldBeIpv8 data then
          (if data.take 22 == pfx then ownPrefixSink exitIds data
           else if tunnelEp then .otherCommunity else .droppedNoTunnelEndpoint)
@@ -304,18 +304,18 @@ theorem plain_data_sink (ct : CType) (h : isE2EType ct = false) (pfx data : Byte
 
 /-- in the base TunnelCommunity (no message registered to arrive through an exit) no payload of a DATA cell is ever
     re-dispatched as a cell message -/
-theorem nothing_redispatched_without_registration (own : Option CType) (o f t z : Bool) (pfx data : Bytes) :
-    onDataSink own o f pfx t z data [] ≠ .ownPacket := by
-  have h0 : ownPrefixSink [] data ≠ .ownPacket := by
-    unfold ownPrefixSink; split <;> simp
+theorem nothing_redispatched_without_registration (own : Option CType) (o f si t z : Bool) (pfx data : Bytes) :
+    onDataSink own o f si pfx t z data (genBaseExitIds.map UInt8.ofNat) ≠ .ownPacket := by
+  have h0 : ownPrefixSink (genBaseExitIds.map UInt8.ofNat) data ≠ .ownPacket := by
+    unfold ownPrefixSink; split <;> simp [genBaseExitIds]
   unfold onDataSink
   cases own <;> simp <;> (repeat' split) <;> simp [h0]
 
-example : onDataSink (some .rpSeeder) true true [0, 2] false true
+example : onDataSink (some .rpSeeder) true true true [0, 2] false true
     ([0, 2] ++ List.replicate 30 (7 : UInt8)) = .raw := by decide
-example : onDataSink (some .data) true true ([0, 2] ++ List.replicate 20 (7 : UInt8)) false true
+example : onDataSink (some .data) true true true ([0, 2] ++ List.replicate 20 (7 : UInt8)) false true
     ([0, 2] ++ List.replicate 30 (7 : UInt8)) [7] = .ownPacket := by decide
-example : onDataSink (some .data) true true ([0, 2] ++ List.replicate 20 (7 : UInt8)) false true
+example : onDataSink (some .data) true true true ([0, 2] ++ List.replicate 20 (7 : UInt8)) false true
     ([0, 2] ++ List.replicate 30 (7 : UInt8)) [13, 14] = .droppedNestedData := by decide
 
 /-- **Data from a foreign address is never taken for circuit data.**  `on_data` treats a DATA message as data of an own
@@ -324,7 +324,7 @@ example : onDataSink (some .data) true true ([0, 2] ++ List.replicate 20 (7 : UI
     peer" is the Internet origin).  From any other address the message takes the exit branch, never a local sink. -/
 theorem foreign_source_never_local (ct : CType) (src hop : Nat × Nat) (h : src ≠ hop) (pfx data : Bytes)
     (tunnelEp destZero originSet : Bool) :
-    onDataSink (some ct) originSet (fromFirstHop src hop) pfx tunnelEp destZero data [] =
+    onDataSink (some ct) originSet (fromFirstHop src hop) (sameIp src hop) pfx tunnelEp destZero data [] =
       (if destZero then .droppedZeroDest else .exitSocket) := by
   have hf : fromFirstHop src hop = false := by
     obtain ⟨a, b⟩ := src; obtain ⟨c, d⟩ := hop
@@ -474,5 +474,26 @@ theorem exit_sockets_independent (dns : Nat → Nat) (ms : XMulti) (cid other : 
   refine ⟨(other, x), hx, ?_⟩
   have : (other == cid) = false := by simpa using h
   simp [this]
+
+/-! ### what the model ASSUMES about the shape of the code, as obligations on the generated file
+
+The hand-written model fixes the order in which `outgoing_crypto` / `incoming_crypto` consult the tables, the order in which
+`encrypt_cell` / `decrypt_cell` walk the hops (so that hop 0's layer is outermost and is removed first), the plaintext short-cut of
+both, the cell header and which messages may be plaintext.  GenCrypto.lean states what the source says today; if it says something
+else this theorem stops compiling. -/
+theorem generated_structure :
+    genOutOrder = [.circuit, .exit, .relay] ∧ genInOrder = [.exit, .circuit] ∧
+    genEncryptOutermostIsFirstHop = true ∧ genDecryptStartsAtFirstHop = true ∧
+    genEncryptSkipsPlaintext = true ∧ genDecryptSkipsPlaintext = true ∧
+    genCellMsgId = 0 ∧ genNoCryptoIds = [2, 3] ∧
+    (∀ i ∈ [1, 6, 7, 19, 20], i ∉ genBaseExitIds ∧ i ∉ genHiddenExitIds) := by decide
+
+/-- the generated directions: forward traffic is made and removed with the FORWARD keys, return traffic with the BACKWARD keys, the
+    rendezvous point swaps a forward layer for a backward one, and the two ends of an e2e circuit use opposite directions -/
+theorem generated_directions :
+    genDirOutCircuit = .fwd ∧ genDirInExit = .fwd ∧ genDirOutExit = .bwd ∧ genDirInCircuit = .bwd ∧ genDirOutRdv = .bwd ∧
+    genDirRdvDec = .fwd ∧ genDirRdvEnc = .bwd ∧ genRelayOp .fwd = .dec ∧ genRelayOp .bwd = .enc ∧
+    genDirOutHs .rpDownloader = genDirInHs .rpSeeder ∧ genDirOutHs .rpSeeder = genDirInHs .rpDownloader ∧
+    genDirOutHs .rpDownloader ≠ genDirInHs .rpDownloader ∧ genDirOutHs .rpSeeder ≠ genDirInHs .rpSeeder := by decide
 
 end Ipv8.C04
